@@ -43,7 +43,7 @@ def jobs(tier):
         for me in (0, 1):
             d = CUT + ["-DCAL_TYPE=%s" % t, "-DCAL_ROWS=%d" % r, "-DCAL_COLS=%d" % c] + (["-DWITH_M_ERROR"] if me else [])
             J.append(V.Job("solve_too_few.%s_%dx%d%s" % (t[7:], r, c, "_merror" if me else ""), H, "h_solve_too_few",
-                           srcs, defines=d, unwind=14, union_struct=True, kind="bounded",
+                           srcs, defines=d, unwind=20, union_struct=True, kind="bounded",
                            canary=(t == "VNACAL_T8" and not me),
                            functions=["vnacal_new_solve", "_vnacal_new_solve_internal", "_vnacal_new_solve_simple",
                                       "_vnacal_new_solve_init", "_vnacal_new_solve_free",
